@@ -3,6 +3,7 @@ import BasicModel.Lemmas.Link
 import BasicModel.Lemmas.StackBound
 import BasicModel.Lemmas.Control
 import BasicModel.Lemmas.CodegenShape
+import BasicModel.Lemmas.ExprCompile
 /-
   C18 — Memory pools are bounded at 64K and completed statements leave nothing behind.
 
@@ -10,7 +11,9 @@ import BasicModel.Lemmas.CodegenShape
   through a checked push that reports OUT OF MEMORY.  Control statements are stack-balanced:
   ON pops its two operands, RETURN removes the frame GOSUB pushed, NEXT either re-pushes the
   FOR frame unchanged or removes it, and ON…GOSUB that selects nothing leaves no return address
-  behind (the repaired defect D6).
+  behind (the repaired defect D6).  A successfully evaluated expression of the fragment `Spec.Pure`
+  grows the stack by exactly one value (`expr_pushes_one`), and `LET v = e` leaves it as it found it
+  (`let_stack_neutral`).
 -/
 namespace Basic
 namespace Thm.C18
@@ -250,6 +253,78 @@ example : (({ ops := #[.end] } : Link).push .end).2 = .ok () := by decide
 /-- pool limits re-extracted from stack.rs and var.rs; `Gen/Limits.lean` is regenerated from /repo/src on every run, so editing one of these
     constants in the Rust source breaks this obligation -/
 theorem generated_limits_documented : Gen.stackMaxLen = 65535 ∧ Gen.stackFullMargin = 32 ∧ Gen.varMaxLen = 65535 := by decide
+
+
+/-! ### expressions and LET -/
+
+section expressions
+open Basic.Spec Basic.Lemmas.ExprCompile
+
+/-- a successfully evaluated expression of the fragment grows the stack by exactly one value — its
+    value —, whatever was on the stack stays below it (code `flat e` at `s.pc`, trace off, room for
+    `(flat e).length` values) -/
+theorem expr_pushes_one (env : Env) (hie : Bool) {e : Expr} (hp : Pure e) (s : Runtime)
+    (hcode : CodeAt s.program.link.ops s.pc (flat e)) (htr : s.tron = false)
+    (hroom : s.stack.size + (flat e).length ≤ 65535) (v : Val) (hv : eval s.vars e = .ok v) :
+    (runOps env hie (flat e) s).2.stack = s.stack.push v ∧
+    (runOps env hie (flat e) s).2.stack.size = s.stack.size + 1 ∧
+    (runOps env hie (flat e) s).2.pc = s.pc + (flat e).length := by
+  have h := ((flat_correct env hie hp s hcode htr hroom).1 v hv).1
+  rw [h]
+  exact ⟨rfl, Array.size_push _, rfl⟩
+
+/-- `LET v = e` (scalar `v` that is not a zero-argument built-in, `e` in the fragment) compiles to one
+    statement fragment, `flat e ++ [pop v]`; wherever that code lies in the code segment of `s`
+    (trace off, room on the stack), if `e` evaluates and the store succeeds, running it ends with the
+    variable stored, `pc` past the code and the stack exactly as it was found -/
+theorem let_stack_neutral (env : Env) (hie : Bool) {e : Expr} (hp : Pure e) (c cv : Col) (i : TIdent)
+    (hz : isZeroArg i.name = false) (vs : Codegen.VState) (hlen : (flat e).length + 1 ≤ 65535) :
+    ∃ (col : Col) (frag : Link),
+      (Codegen.acceptStmt (.let c (.unary cv i) e) vs).g.stmt = vs.g.stmt.push (col, frag) ∧
+      (Codegen.acceptStmt (.let c (.unary cv i) e) vs).errors = vs.errors ∧
+      frag.ops = (flat e ++ [Opcode.pop i.name]).toArray ∧
+      ∀ (s : Runtime), CodeAt s.program.link.ops s.pc frag.ops.toList → s.tron = false →
+        s.stack.size + frag.ops.size ≤ 65535 →
+        ∀ (v : Val) (vars' : Var), eval s.vars e = .ok v → s.vars.store i.name v = .ok vars' →
+          runOps env hie frag.ops.toList s =
+            (.ok .continue, { s with pc := s.pc + frag.ops.size, vars := vars' }) ∧
+          (runOps env hie frag.ops.toList s).2.stack = s.stack := by
+  obtain ⟨col, frag, h1, h2, h3, h4⟩ := compileLet_correct env hie hp c cv i hz vs hlen
+  refine ⟨col, frag, h1, h2, h3, ?_⟩
+  intro s hcode htr hroom v vars' hv hst
+  have h := h4 s hcode htr hroom v vars' hv hst
+  exact ⟨h, by rw [h]⟩
+
+/-! non-vacuity: `LET B% = 1 + 2 * A%` -/
+
+/-- `1 + 2 * A%` -/
+def exTree : Expr :=
+  .bin .add (9, 18) (.integer (9, 10) 1)
+    (.bin .multiply (13, 18) (.integer (13, 14) 2) (.var (.unary (17, 18) (.integer "A%".toList))))
+
+def exLetCode : List Opcode := flat exTree ++ [Opcode.pop "B%".toList]
+
+def exEnv : Env := { lex := fun _ => default, lineRenum := fun _ l => l }
+
+/-- the code of the statement at address 1, two values on the stack, `A% = 20` -/
+def exLetRt : Runtime :=
+  { program := { link := { ops := #[.end] ++ exLetCode.toArray ++ #[.end] } },
+    pc := 1, stack := #[.int 7, .ret 3], vars := { vars := [("A%".toList, .int 20)] } }
+
+example : Pure exTree ∧ isZeroArg "B%".toList = false := by decide
+example : eval exLetRt.vars exTree = .ok (.int 41) := by decide
+example : CodeAt exLetRt.program.link.ops exLetRt.pc exLetCode ∧ exLetRt.tron = false ∧
+    exLetRt.stack.size + exLetCode.length ≤ 65535 := by decide
+example : ∃ col, Codegen.acceptStmt (.let (0, 18) (.unary (4, 6) (.integer "B%".toList)) exTree) {} =
+    { g := { stmt := #[(col, { ops := exLetCode.toArray })] } } :=
+  let_codegen_shape (by decide) _ _ _ (by decide) {} (by decide)
+example : (runOps exEnv false (flat exTree) exLetRt).2.stack = #[.int 7, .ret 3, .int 41] := by decide
+example : (runOps exEnv false exLetCode exLetRt).2.stack = #[.int 7, .ret 3] := by decide
+example : (runOps exEnv false exLetCode exLetRt).2.vars.vars = [("B%".toList, .int 41), ("A%".toList, .int 20)] := by
+  decide
+example : (runOps exEnv false exLetCode exLetRt).2.pc = 7 := by decide
+
+end expressions
 
 end Thm.C18
 end Basic
